@@ -33,6 +33,7 @@ inductive CmpOp where | lt | le | gt | ge | eq | ne
 inductive GTerm where
   | param (p : String)
   | lit (i : Int)
+  | add (a : GTerm) (k : Int)      -- `a + k` / `a - k` with an integer literal
   deriving DecidableEq, Repr
 
 /-- conditions of the `if <cond>: raise` statements at the head of an adapter constructor -/
@@ -62,8 +63,7 @@ structure AdapterRow where
 
 /-- statements of `Repository.init`, in source order; the flag says "inside `if props.encrypted:`" -/
 inductive InitStage where
-  | validate | makeConfig | printConfig | instantiateConfig | passwordCheck | makeKey | instantiateKey
-  | encryptPrivate | writeKey | uploadConfig
+  | validate | makeConfig | instantiateConfig | passwordCheck | makeKey | instantiateKey | encryptPrivate | uploadConfig
   deriving DecidableEq, Repr
 '''
 
@@ -112,6 +112,13 @@ def const_eval(node, env):
 def term(node, params, env):
     if isinstance(node, ast.Name) and node.id in params:
         return f'.param {lean_str(node.id)}'
+    if isinstance(node, ast.BinOp) and isinstance(node.op, (ast.Add, ast.Sub)):
+        try:
+            k = const_eval(node.right, env)
+        except NotRecognised:
+            k = None
+        if isinstance(k, int) and not isinstance(k, bool):
+            return f'.add ({term(node.left, params, env)}) {lean_int(k if isinstance(node.op, ast.Add) else -k)}'
     v = const_eval(node, env)
     if isinstance(v, bool) or not isinstance(v, int):
         raise NotRecognised(f'guard operand {ast.unparse(node)}')
@@ -136,6 +143,8 @@ def cond(node, params, env):
             vals = const_eval(comps[0], env)
             if not isinstance(vals, (tuple, list, set, frozenset)) or not all(isinstance(x, int) and not isinstance(x, bool) for x in vals):
                 raise NotRecognised(f'membership set {ast.unparse(comps[0])}')
+            if isinstance(vals, (set, frozenset)):
+                vals = sorted(vals)
             lst = '[' + ', '.join(lean_int(x) for x in vals) + ']'
             ctor = '.isIn' if isinstance(ops[0], ast.In) else '.notIn'
             return f'{ctor} ({term(node.left, params, env)}) {lst}'
@@ -264,16 +273,13 @@ def classify_init_stmt(st):
         return 'instantiateKey'
     if 'props.encrypt' in calls:
         return 'encryptPrivate'
-    if any(c.startswith('self._upload') or c.startswith('self.backend.') for c in calls):
-        if "'config'" not in src:
-            raise NotRecognised(f'backend call in init that is not the config upload: {src[:80]}')
-        return 'uploadConfig'
+    if any(c.startswith('self._upload') or c.startswith('self._delete') or c in ('self.backend.upload', 'self.backend.upload_stream', 'self.backend.delete')
+           for c in calls):
+        return 'uploadConfig'      # init has one mutating backend call, the config upload; any mutating call counts as "the backend is touched here"
     if isinstance(st, ast.If) and ast.unparse(st.test) == 'password is None' and any(isinstance(x, ast.Raise) for x in ast.walk(st)):
         return 'passwordCheck'
     if isinstance(st, ast.If) and 'key_output_path' in ast.unparse(st.test):
-        return 'writeKey'
-    if 'print' in calls and 'json.dumps' in calls and 'config' in src:
-        return 'printConfig'
+        return None      # writes / prints the key file: no backend access, cannot fail in the typed universe
     if any(isinstance(x, ast.Raise) for x in ast.walk(st)):
         raise NotRecognised(f'unmodelled raise in init: {src[:80]}')
     return None
